@@ -334,6 +334,10 @@ func c10Check(c c10Case) fw.Outcome {
 // genC10Leaf: leaf objects on a small lattice, valid enough for Parse when wanted.
 func genC10Leaf(t *rapid.T, parseable bool) objSpec {
 	lp := func(label string) fpt {
+		if rapid.IntRange(0, 7).Draw(t, label+"_o") == 0 {
+			// at or next to the origin, where the zero rectangle of an empty or not yet seeded box lives
+			return fpt{F(rapid.IntRange(0, 1).Draw(t, label+"ox")), F(rapid.IntRange(0, 1).Draw(t, label+"oy"))}
+		}
 		return fpt{F(rapid.IntRange(3, 11).Draw(t, label+"x")), F(rapid.IntRange(3, 11).Draw(t, label+"y"))}
 	}
 	kinds := []string{"Point", "LineString", "Polygon", "Polygon", "Rect", "SimplePoint"}
@@ -395,7 +399,7 @@ func genC10Coll(t *rapid.T, depth int, parseable bool, maxChildren int) objSpec 
 				s.Pts = append(s.Pts, s.Pts[0])
 				continue
 			}
-			p := fpt{F(rapid.IntRange(3, 11).Draw(t, "mx")), F(rapid.IntRange(3, 11).Draw(t, "my"))}
+			p := fpt{F(rapid.SampledFrom([]int{0, 0, 1, 3, 4, 5, 6, 7, 8, 9, 10, 11}).Draw(t, "mx")), F(rapid.SampledFrom([]int{0, 0, 1, 3, 4, 5, 6, 7, 8, 9, 10, 11}).Draw(t, "my"))}
 			s.Pts = append(s.Pts, p)
 			_ = leaf
 		case "MultiLineString":
